@@ -252,6 +252,7 @@ def run(ctx, rep):
     rep.rule("R20.3", "trees: destination directory created before and independently of the listing; same entry name on both sides; "
                       "filter threaded through every level")
     rep.rule("R20.4", "sibling symmetry: upload* and download* are mirror images (same rule instances on both sides)")
+    rep.rule("R20.5", "the chunks travel whole: frame layout agreement of the channel underneath (= R05.4)")
     rep.assume("file-system semantics, symlinks/special files and permissions are out of scope; chunk size does not affect content")
     before = len(rep.obs)
     check_file(ctx, rep, "upload_file", src_remote=False)
@@ -271,3 +272,5 @@ def run(ctx, rep):
            "file: %d/%d, dir: %d/%d obligations" % (n_up, n_down, b - a, c - b) if ok else
            "the two families differ in shape (file: %d vs %d, dir: %d vs %d obligations): one sibling was changed alone"
            % (n_up, n_down, b - a, c - b), "rpyc/utils/classic.py", kind="table")
+    from . import common as K
+    K.share(ctx, rep, "c05", lambda o: o.rule == "R05.4", "R20.5", floor=5)
